@@ -26,7 +26,7 @@ ASSUMPTIONS = ["inputs are oriented manifold polygon complexes within the size b
                "edge ids are taken from mesh.edges (construction is C02's subject)"]
 BOUNDS = {
     "quick": "SURF triangles n<=5 all labelled (434), triangles+quads n=4 all labelled, n=5 (<=4 faces) one per isomorphism class, pentagon and triangle+pentagon complexes on 5 vertices, SURF(6) triangle isomorphism classes (28); face-listing deviations (rotated start vertex / swapped faces) <=2 on n=3, <=1 on n=4; ZOO; cache-state BFS to the fixed point on n<=4, over all histories of <= 3 events otherwise",
-    "thorough": "all labelled SURF: triangles n<=6 (13368), triangles+quads n=5 <=5 faces, pentagons; face-listing deviations <=2 on n<=4 and <=1 on n=5 triangles; larger ZOO; cache-state BFS to the fixed point except on the labelled 6-vertex family (histories of <= 3 events)",
+    "thorough": "all labelled SURF: triangles n<=6 (13368), triangles+quads n=5 <=5 faces, pentagons; face-listing deviations <=2 on n<=4 and <=1 on n=5 triangles; larger ZOO; cache-state BFS to the fixed point except on the labelled 6-vertex family (histories of <= 2 events)",
 }
 
 BATCH = 20
@@ -113,7 +113,7 @@ def _inputs(tier):
 def tasks(tier):
     """depth = bound on the number of events per explored history (None = run the cache-state BFS to its fixed
     point). Quick: fixed point on n <= 4, histories of <= 3 events otherwise; thorough: fixed point everywhere
-    except the 12 934 labelled 6-vertex complexes (<= 3 events). Every accessor is evaluated in every state
+    except the 12 934 labelled 6-vertex complexes (<= 2 events). Every accessor is evaluated in every state
     reached, including the states at the bound."""
     ins = _inputs(tier)
     out = []
@@ -121,7 +121,7 @@ def tasks(tier):
     def depth_of(x):
         if tier == "quick":
             return None if x[1] <= 4 else 3
-        return 3 if x[0].startswith("tri6#") else None
+        return 2 if x[0].startswith("tri6#") else None
     small = [x for x in ins if x[1] <= 6 and len(x[2]) <= 10]
     big = [x for x in ins if not (x[1] <= 6 and len(x[2]) <= 10)]
     # large specimens (face / corner / edge ids beyond 256): cache states reachable with <= 2 events, thinned domains
@@ -129,7 +129,7 @@ def tasks(tier):
         out.append({"sort": sort, "depth": 2, "big": "torus12x15"})
         out.append({"sort": sort, "depth": 2, "big": "cylinder20x16"})
     for sort in (True, False):
-        for d in (None, 3):
+        for d in (None, 3, 2):
             grp = [x for x in small if depth_of(x) == d]
             for i in range(0, len(grp), BATCH):
                 out.append({"sort": sort, "depth": d, "meshes": grp[i:i + BATCH]})
